@@ -47,10 +47,11 @@ def run(ctx):
     r = ctx.rng
     pairs = [(u, g) for u in IDS for g in IDS]
     pairs += [(r.randrange(2 ** 32), r.randrange(2 ** 32)) for _ in range(100 if ctx.tier == "quick" else 3000)]
-    for variant, h in (("toy", htoy), ("real", hreal)):
+    # (real-bench: the daemon's --benchmark mode switches off replay detection and timers, nothing else: identity still attested)
+    for variant, h, extra in (("toy", htoy, ""), ("real", hreal, ""), ("real-bench", hreal, " bench=1")):
         if not h or (variant == "toy" and not drv):      # (already a failed obligation; the other variant still runs)
             continue
-        ops, want = ["cred conf mackey=%s dekkey=%s" % (K.MK.hex(), K.DK.hex())], [None]
+        ops, want = ["cred conf mackey=%s dekkey=%s%s" % (K.MK.hex(), K.DK.hex(), extra)], [None]
         for (u, g) in pairs:
             reqs = [cc.enc_req(cipher=r.choice([0, 4, 2]), mac=r.choice([3, 5]), zip_=0, data=b"id-test")]
             if r.random() < .25 or (u, g) in [(0, 0), (2 ** 32 - 2, 2 ** 32 - 2)]:
@@ -91,7 +92,7 @@ def run(ctx):
                 return None
             if not (rsp.ok and rsp.kind == "enc"):
                 return "no well-formed encode reply"
-            if rsp.error_num == 0 and variant == "real":
+            if rsp.error_num == 0 and variant.startswith("real"):
                 f = R.parse(rsp.data, K.MK, K.DK)
                 if isinstance(f, str):
                     return "credential does not parse under the v3 reference (%s)" % f
@@ -113,10 +114,10 @@ def run(ctx):
                 if why:
                     bad = (i, why, l); break
             crashed = rc != 0 or len(out) != len(ops2)
-            ctx.obligation("oracle", "stream identity-real: %d ops, v3 reference + decode agree with the attested identity" % len(ops2),
+            ctx.obligation("oracle", "stream identity-%s: %d ops, v3 reference + decode agree with the attested identity" % (variant, len(ops2)),
                            bad is None and not crashed, (bad[1] if bad else "") + (err[-1500:] if crashed else ""))
             if bad or crashed:
                 i = bad[0] if bad else len(out)
                 ctx.violation("credential identity (real primitives): " + (bad[1] if bad else "sanitizer/crash"),
-                              {"stream": "identity-real", "ops": [ops2[0], ops2[i] if i < len(ops2) else "(end)"], "impl_output": (bad[2] if bad else err[-2000:])},
+                              {"stream": "identity-" + variant, "ops": [ops2[0], ops2[i] if i < len(ops2) else "(end)"], "impl_output": (bad[2] if bad else err[-2000:])},
                               found_input=True)
